@@ -114,6 +114,9 @@ def _prove_structure(cx, h5file, what):
 class StructureAfterSequence(OpSequence):
     pid = "C02"
     compare_tree = False
+    # detaching through the parent leaves the nodes of the detached entities in the file until a listing purges them: open
+    # finding F-C05-2 (recorded under C05, where `DetachThenClose` re-confirms it); the structural check leaves the call out
+    skip_ops = ("detach_all_from_group",)
 
     def after_close(self, cx, h5file, seq):
         _prove_structure(cx, h5file, f"[{seq}]")
